@@ -3,8 +3,42 @@
 From stdpp Require Import gmap strings.
 From Coq Require Import NArith Lia.
 From SV Require Import CfgState.Model CfgState.Spec CfgState.Proofs CfgState.ReplayProofs CfgState.ReplayBuckets
-  CfgState.InvRProofs CfgState.DiffProofs CfgState.DiffApply CfgState.DiffChunks CfgState.DiffClusters CfgState.DiffAbs CfgState.DiffCerts.
+  CfgState.InvRProofs CfgState.DiffProofs CfgState.DiffApply CfgState.DiffChunks CfgState.DiffClusters CfgState.DiffAbs CfgState.DiffCerts
+  CfgState.DiffBuckets CfgState.DiffTFronts CfgState.DiffBackends.
 Open Scope N_scope.
+
+Lemma norm_bucket_lookup (c : gmap N (list tfront)) cl :
+  (isort tf_le <$> drop_empty c) !! cl =
+  match default [] (c !! cl) with [] => None | _ => Some (isort tf_le (default [] (c !! cl))) end.
+Proof.
+  rewrite lookup_fmap. unfold drop_empty. destruct (c !! cl) as [l|] eqn:E; cbn [default].
+  - destruct l as [|x l].
+    + rewrite (proj2 (map_filter_lookup_None (fun kv : N * list tfront => snd kv <> []) c cl)); [reflexivity|]. right. intros l' Hl Hne. cbn in Hne. congruence.
+    + rewrite (proj2 (map_filter_lookup_Some (fun kv : N * list tfront => snd kv <> []) c cl (x :: l))); [reflexivity|]. split; [exact E|discriminate].
+  - rewrite (proj2 (map_filter_lookup_None (fun kv : N * list tfront => snd kv <> []) c cl)); [reflexivity|]. left. exact E.
+Qed.
+
+Lemma tabs_norm_set (c1 c2 : gmap N (list tfront)) :
+  tIv c1 -> tIv c2 -> (forall k, tabs c1 k = tabs c2 k) ->
+  isort tf_le <$> drop_empty c1 = isort tf_le <$> drop_empty c2.
+Proof.
+  intros H1 H2 He. apply map_eq. intros cl. rewrite !norm_bucket_lookup.
+  set (e1 := default [] (c1 !! cl)). set (e2 := default [] (c2 !! cl)).
+  assert (Hn : forall (c : gmap N (list tfront)), tIv c -> NoDup (default [] (c !! cl))).
+  { intros c Hc. destruct (c !! cl) as [l|] eqn:E; cbn; [eapply NoDup_fmap_1; eapply Hc; eauto|constructor]. }
+  assert (Hmem : forall t, t ∈ e1 <-> t ∈ e2) by (intros t; apply (labs_same_elements t_addr c1 c2 H1 H2 He)).
+  assert (Hs : isort tf_le e1 = isort tf_le e2).
+  { apply (sorted_nodup_eq tf_le tf_le_trans tf_le_antisym).
+    - apply isort_sorted, tf_le_total.
+    - apply isort_sorted, tf_le_total.
+    - rewrite (isort_perm tf_le). apply Hn; exact H1.
+    - rewrite (isort_perm tf_le). apply Hn; exact H2.
+    - intros t. rewrite !elem_of_list_In, !In_isort, <- !elem_of_list_In. apply Hmem. }
+  destruct e1 as [|x1 r1] eqn:E1; destruct e2 as [|x2 r2] eqn:E2; try reflexivity.
+  - exfalso. assert (H : x2 ∈ ([] : list tfront)) by (apply Hmem; left). inversion H.
+  - exfalso. assert (H : x1 ∈ ([] : list tfront)) by (apply Hmem; left). inversion H.
+  - rewrite Hs. reflexivity.
+Qed.
 
 Section compose.
   Variable fingerprint : N -> option N.
@@ -71,5 +105,69 @@ Section compose.
     rewrite (piece_late fingerprint inames hc_valid steps LUdp (udp_l A) (udp_l B) s16 eq_refl).
     exists s16. split; [reflexivity|].
     unfold norm. cbn. rewrite Eb, Et, Eu. f_equal. apply cabs_norm. exact Hc'.
+  Qed.
+
+  (** C06 at full strength on the model: for ANY two states satisfying the
+      reachable-state invariant, every request of diff(A,B) is accepted by an
+      instance holding A, which then holds B — all eleven maps, modulo empty
+      buckets and the order inside tcp/udp frontend buckets. *)
+  Theorem apply_diff A B :
+    InvR A -> InvR B ->
+    exists Z, replay (diff A B) A = (Z, 0%nat) /\ norm_set Z = norm_set B.
+  Proof.
+    intros ([_ HfkA] & HbA & HtA & _) ([HhcB HfkB] & HbB & HtB & HcB).
+    unfold diff.
+    rewrite replay_app, (piece_removed fingerprint inames hc_valid steps LTcp (tcp_l A) (tcp_l B) A eq_refl).
+    set (s1 := set_l LTcp A _).
+    rewrite replay_app, (piece_added fingerprint inames hc_valid steps LTcp (tcp_l A) (tcp_l B) s1 eq_refl).
+    set (s2 := set_l LTcp s1 _).
+    rewrite replay_app, (piece_removed fingerprint inames hc_valid steps LUdp (udp_l A) (udp_l B) s2 eq_refl).
+    set (s3 := set_l LUdp s2 _).
+    rewrite replay_app, (piece_added fingerprint inames hc_valid steps LUdp (udp_l A) (udp_l B) s3 eq_refl).
+    set (s4 := set_l LUdp s3 _).
+    rewrite replay_app, (piece_removed fingerprint inames hc_valid steps LHttp (http_l A) (http_l B) s4 eq_refl).
+    set (s5 := set_l LHttp s4 _).
+    rewrite replay_app, (piece_added fingerprint inames hc_valid steps LHttp (http_l A) (http_l B) s5 eq_refl).
+    set (s6 := set_l LHttp s5 _).
+    rewrite replay_app, (piece_removed fingerprint inames hc_valid steps LHttps (https_l A) (https_l B) s6 eq_refl).
+    set (s7 := set_l LHttps s6 _).
+    rewrite replay_app, (piece_added fingerprint inames hc_valid steps LHttps (https_l A) (https_l B) s7 eq_refl).
+    set (s8 := set_l LHttps s7 _).
+    rewrite replay_app, (piece_common fingerprint inames hc_valid steps LTcp (tcp_l A) (tcp_l B) s8 eq_refl).
+    set (s9 := set_l LTcp s8 _).
+    rewrite replay_app, (piece_common fingerprint inames hc_valid steps LUdp (udp_l A) (udp_l B) s9 eq_refl).
+    set (s10 := set_l LUdp s9 _).
+    rewrite replay_app, (piece_common fingerprint inames hc_valid steps LHttp (http_l A) (http_l B) s10 eq_refl).
+    set (s11 := set_l LHttp s10 _).
+    rewrite replay_app, (piece_common fingerprint inames hc_valid steps LHttps (https_l A) (https_l B) s11 eq_refl).
+    set (s12 := set_l LHttps s11 _).
+    rewrite replay_app, (piece_clusters fingerprint inames hc_valid steps (clusters A) (clusters B) s12 eq_refl HhcB).
+    set (s13 := set_clusters s12 _).
+    destruct (piece_backends fingerprint inames hc_valid steps (backends A) (backends B) HbA HbB s13 eq_refl) as (cb & Hrb & Hib & Hab).
+    rewrite replay_app, Hrb.
+    set (s14 := set_backends s13 cb).
+    rewrite replay_app, (apply_diff_fronts fingerprint inames hc_valid steps false (http_f A) (http_f B) s14 eq_refl
+                           (fun k f H => proj1 (HfkA false k f H)) (HfkB false)).
+    set (s15 := set_f false s14 _).
+    rewrite replay_app, (apply_diff_fronts fingerprint inames hc_valid steps true (https_f A) (https_f B) s15 eq_refl
+                           (fun k f H => proj1 (HfkA true k f H)) (HfkB true)).
+    set (s16 := set_f true s15 _).
+    destruct (piece_tfronts fingerprint inames hc_valid steps false (tcp_f A) (tcp_f B) s16 eq_refl (HtA false) (HtB false)) as (ct & Hrt & Hit & Hat).
+    rewrite replay_app, Hrt.
+    set (s17 := set_t false s16 ct).
+    destruct (piece_tfronts fingerprint inames hc_valid steps true (udp_f A) (udp_f B) s17 eq_refl (HtA true) (HtB true)) as (cu & Hru & Hiu & Hau).
+    rewrite replay_app, Hru.
+    set (s18 := set_t true s17 cu).
+    destruct (piece_certs fingerprint inames hc_valid steps (certs A) (certs B) s18 eq_refl HcB) as (cc & Hrc & Hcc).
+    rewrite replay_app, Hrc.
+    set (s19 := set_certs s18 cc).
+    rewrite replay_app, (piece_late fingerprint inames hc_valid steps LTcp (tcp_l A) (tcp_l B) s19 eq_refl).
+    rewrite (piece_late fingerprint inames hc_valid steps LUdp (udp_l A) (udp_l B) s19 eq_refl).
+    exists s19. split; [reflexivity|].
+    unfold norm_set, norm. cbn.
+    rewrite (babs_norm cb (backends B) Hib HbB Hab).
+    rewrite (tabs_norm_set ct (tcp_f B) Hit (HtB false) Hat).
+    rewrite (tabs_norm_set cu (udp_f B) Hiu (HtB true) Hau).
+    rewrite (cabs_norm cc (certs B) Hcc). reflexivity.
   Qed.
 End compose.
